@@ -488,6 +488,16 @@ fn judge(cx: &Ctx, rep: &mut Reporter, p: &Program, f: ProgFn, steps: &[Step], d
 
 pub fn main(gen_seed: u64, gen_n: usize, shard: usize, programs: &[(usize, ProgFn)]) {
     let args = Args::parse();
+    if let Some(pos) = args.rest.iter().position(|a| a == "--dump") {
+        // print the dfir text of generated programs (ids follow; none = all) and exit
+        let ids: Vec<usize> = args.rest[pos + 1..].iter().filter_map(|x| x.parse().ok()).collect();
+        for p in pgen::generate(gen_seed, gen_n) {
+            if ids.is_empty() || ids.contains(&p.id) {
+                println!("// program {} ({})\n{}", p.id, p.mode.s(), crate::emit::dfir_text(&p));
+            }
+        }
+        return;
+    }
     if args.prop == "NONE" {
         return;
     }
